@@ -168,6 +168,16 @@ func genItems(rng *rand.Rand, v6 bool) []item {
 					b = append(h, tlv6(9, b)...)
 				}
 				it.b, it.class = b, "valid"
+			case kind < 7 && rng.IntN(3) == 0:
+				// a relay message without a Relay Message option (the header alone, or with an interface-id): the reference
+				// decides whether that is a decodable datagram; it carries its nonce at the relay level
+				h := make([]byte, 34)
+				h[0] = byte(12 + rng.UintN(2))
+				copy(h[2:], gen4.Bytes(rng, 32))
+				if rng.IntN(2) == 0 {
+					h = append(h, tlv6(18, gen4.Bytes(rng, 1+rng.IntN(6)))...)
+				}
+				it.b, it.class = append(h, tlv6(65001, nb[:])...), "relay-no-msg"
 			case kind < 8:
 				it.b, it.class = append([]byte{byte(1 + rng.UintN(11)), 1, 2, 3}, gen4.Bytes(rng, 1+rng.IntN(3))...), "undecodable"
 			case kind < 9:
@@ -379,10 +389,12 @@ func runCase(r *mon.Rec, famName string, idx int) {
 				return
 			}
 			nonce := 0
-			if im, e := m.GetInnerMessage(); e == nil {
+			if im, e := m.GetInnerMessage(); e == nil && im != nil {
 				if o := im.GetOneOption(65001); o != nil && len(o.ToBytes()) == 4 {
 					nonce = int(binary.BigEndian.Uint32(o.ToBytes()))
 				}
+			} else if o := m.GetOneOption(65001); o != nil && len(o.ToBytes()) == 4 {
+				nonce = int(binary.BigEndian.Uint32(o.ToBytes())) // a relay message that encapsulates nothing
 			}
 			enter(nonce, peer, func() string { return proj.M6(m).String() }, m.ToBytes)
 		}, append([]server6.ServerOpt{server6.WithConn(conn)}, logOpts6(logCfg)...)...)
